@@ -127,6 +127,7 @@ def make_model_class():
             self.extra_action = None       # callable(model, action) for domain actions
             self.on_exec = None            # callable(model, seq, node) before the actions
             self.fault_idx = set()         # trace indices whose handler fails (after its actions)
+            self.runaway = False
 
         def construct_model(self):
             self.constructed += 1
@@ -146,6 +147,13 @@ def make_model_class():
         def h(self, seq, node):
             sim = self.simulator
             self.trace.append([seq, node, enc_obs(sim.simulator_time)])
+            if len(self.trace) > 4 * self.cap + 200:
+                # runaway guard: far more executions than events can exist (e.g. an event that is re-queued for
+                # ever).  Empty the event list through the public API so that the run ends; the trace comparison
+                # of the property module reports the discrepancy.
+                self.runaway = True
+                sim.eventlist().clear()
+                return
             if self.on_exec is not None:
                 self.on_exec(self, seq, node)
             self._actions(self.prog["nodes"][node], seq)
@@ -321,6 +329,9 @@ class Harness:
         if rs in (RunState.STARTING, RunState.STARTED):
             if not live:
                 return "limbo:%s-worker-gone" % rs.name
+            if all(w.is_waiting() for w in live) and not any(w.is_running() for w in live):
+                # 'running' state but the worker is parked and nothing woke it: nobody will ever change the state
+                return "limbo:%s-but-worker-waiting" % rs.name
             return "busy"
         return "busy"
 
@@ -336,7 +347,7 @@ class Harness:
                 # a limbo state is permanent by construction; confirm it over a few ms
                 if limbo_since is None:
                     limbo_since = _time.monotonic()
-                elif _time.monotonic() - limbo_since > 0.05:
+                elif _time.monotonic() - limbo_since > (0.05 if "worker-waiting" not in s else 0.3):
                     if allow_limbo:
                         return s
                     raise Inconclusive("simulator stuck: " + s)
@@ -365,9 +376,9 @@ class Harness:
             else:
                 raise ValueError(kind)
         except Exception as e:
-            self.settle()
+            self.last_status = self.settle(allow_limbo=True)
             return e
-        self.settle()
+        self.last_status = self.settle(allow_limbo=True)
         return None
 
     def start_pause_after(self, k, starter=("start",)):
